@@ -496,7 +496,9 @@ impl<'a> Th<'a> {
                 None
             }
             Send { v } => {
-                self.tx.as_ref().expect("Send without sender").send(v as usize).unwrap();
+                // std refuses a send once the receiver is gone; loom still counts the message
+                // (and reports it as leaked at the end of the execution)
+                let _ = self.tx.as_ref().expect("Send without sender").send(v as usize);
                 None
             }
             Recv => Some(self.rx.as_ref().expect("Recv without receiver").recv().unwrap() as i64),
